@@ -343,17 +343,18 @@ theorem elabStmts_ops (A : Arith V) (table : List BuiltinDef) (n : Nat) (ops : L
 
 theorem forall2_loc (A : Arith V) (table : List BuiltinDef) (ops : List POp) (exp : List (Op V))
     (h : ReadsAll A table ops exp) (n : Nat)
-    (hr : ∀ o ∈ ops, ∀ q ∈ o.loc, q < n) : ∀ op ∈ exp, ∀ q ∈ op.loc, q < n := by
+    (hr : ∀ o ∈ ops, ∀ q ∈ o.loc, q < n) :
+    ∀ op ∈ exp, op.loc ≠ [] ∧ ∀ q ∈ op.loc, q < n := by
   induction h with
   | nil => simp
   | @cons o op os es hd _ ih =>
-    intro op' hop' q hq
+    intro op' hop'
     simp only [List.mem_cons] at hop'
     rcases hop' with rfl | hmem
-    · obtain ⟨_, _, b, vs, _, _, _, _, hmk⟩ := hd
-      rw [mkPrim_loc A b o.loc vs _ hmk] at hq
-      exact hr o (by simp) q hq
-    · exact ih (fun o' ho' => hr o' (by simp [ho'])) op' hmem q hq
+    · obtain ⟨hne, _, b, vs, _, _, _, _, hmk⟩ := hd
+      rw [mkPrim_loc A b o.loc vs _ hmk]
+      exact ⟨hne, hr o (by simp)⟩
+    · exact ih (fun o' ho' => hr o' (by simp [ho'])) op' hmem
 
 theorem parseProgram_header (n : Nat) (body : List Tok) (ss : List (Stmt V))
     (h : ∀ f, body.length + 1 ≤ f → pProgram f body = some (ss, [])) :
@@ -397,7 +398,7 @@ theorem decodeToks_programToks (A : Arith V) (table : List BuiltinDef) (n : Nat)
     exact pProgram_ops ops hne f (by omega)
   have hel := elabStmts_ops A table n ops exp h
     { table := table, qregs := [("q", n)] } rfl rfl
-  have hfin : ∀ op ∈ exp, ∀ q ∈ op.loc, q < n := forall2_loc A table ops exp h n hr
+  have hfin := forall2_loc A table ops exp h n hr
   unfold decodeToks
   rw [hparse]
   simp only [Option.bind_some, elabStmts, elabStmt, List.any_nil, Bool.false_eq_true, if_false,
@@ -405,8 +406,9 @@ theorem decodeToks_programToks (A : Arith V) (table : List BuiltinDef) (n : Nat)
   simp only [finish, totalSize, List.map_cons, List.map_nil, List.sum_cons, List.sum_nil,
     Nat.add_zero, List.append_nil, List.reverse_reverse]
   have h0 : (n == 0) = false := by simp; omega
-  have hall : (exp.all fun o => o.loc.all (· < n)) = true := by
-    simp only [List.all_eq_true, decide_eq_true_eq]
+  have hall : (exp.all fun o => !o.loc.isEmpty && o.loc.all (· < n)) = true := by
+    simp only [List.all_eq_true, decide_eq_true_eq, Bool.and_eq_true, Bool.not_eq_true',
+      List.isEmpty_eq_false_iff]
     exact hfin
   simp [h0, hall]
 
